@@ -200,6 +200,89 @@ class Scalar3:
 
     pairs = [("s", "(x-s)sqrt(d)"), ("d", "(x-s)sqrt(d)"), ("s", "d")]
 
+class Multi:
+    """x ~ N(x0, I/d) (d ~ Gamma(a_d,b_d), or d fixed);  J data sets  y_j | x, l_j ~ N(A_j x, I/l_j),  l_j ~ Gamma(a_j, b_j).
+    Every data set has its own forward matrix and its own noise-precision block, so the conditional of x is a
+    posterior with several *different* likelihoods.  The y_j are data (fixed `ys`, or the values found in the state)."""
+    family = "multi"
+
+    def __init__(self, n, As, x0, a_l, b_l, hyper_d, a_d=3.0, b_d=2.0, d_fixed=1.0, ys=None):
+        self.n = n
+        self.As = [np.asarray(A, float) for A in As]
+        self.ms = [A.shape[0] for A in self.As]
+        self.J = len(self.As)
+        self.x0 = np.asarray(x0, float)
+        self.a_l, self.b_l = list(a_l), list(b_l)
+        self.hyper_d, self.a_d, self.b_d, self.d_fixed = bool(hyper_d), a_d, b_d, float(d_fixed)
+        self.ys = None if ys is None else [np.asarray(y, float) for y in ys]
+        self.lnames = [f"l{j + 1}" for j in range(self.J)]
+        self.data_names = [f"y{j + 1}" for j in range(self.J)]
+        self.names = ["x"] + self.lnames + (["d"] if self.hyper_d else [])
+        self.dims = {"x": n, "d": 1, **{k: 1 for k in self.lnames}, **{k: m for k, m in zip(self.data_names, self.ms)}}
+        self.positive = set(self.lnames) | {"d"}
+
+    def _y(self, v, j):
+        k = self.data_names[j]
+        return np.asarray(v[k], float).reshape(-1) if k in v else self.ys[j]
+
+    def logjoint(self, v):
+        x = np.asarray(v["x"], float).reshape(-1)
+        d = float(np.asarray(v["d"]).reshape(-1)[0]) if self.hyper_d else self.d_fixed
+        out = log_gamma_pdf(d, self.a_d, self.b_d) if self.hyper_d else 0.0
+        if not np.isfinite(out):
+            return out
+        out += log_gauss_diag(x, self.x0, 1.0 / d)
+        for j in range(self.J):
+            l = float(np.asarray(v[self.lnames[j]]).reshape(-1)[0])
+            lg = log_gamma_pdf(l, self.a_l[j], self.b_l[j])
+            if not np.isfinite(lg):
+                return lg
+            out += lg + log_gauss_diag(self._y(v, j), self.As[j] @ x, 1.0 / l)
+        return out
+
+    def draw(self, rs):
+        d = rs.gamma(self.a_d, 1.0 / self.b_d) if self.hyper_d else self.d_fixed
+        x = self.x0 + rs.standard_normal(self.n) / math.sqrt(d)
+        v = {"x": x}
+        if self.hyper_d:
+            v["d"] = np.array([d])
+        for j in range(self.J):
+            l = rs.gamma(self.a_l[j], 1.0 / self.b_l[j])
+            v[self.lnames[j]] = np.array([l])
+            v[self.data_names[j]] = self.As[j] @ x + rs.standard_normal(self.ms[j]) / math.sqrt(l)
+        return v
+
+    def pivots(self, states):
+        X = np.array([np.asarray(s["x"], float).reshape(-1) for s in states])
+        d = np.array([float(np.asarray(s["d"]).reshape(-1)[0]) for s in states]) if self.hyper_d else np.full(len(states), self.d_fixed)
+        zx = np.sqrt(d)[:, None] * (X - self.x0)
+        out = {"sqrt(d)(x-x0)": (zx.ravel(), ("norm",)), "sqrt(d)(x-x0)[0]": (zx[:, 0], ("norm",)),
+               "d*|x-x0|^2": (np.sum(zx ** 2, axis=1), ("chi2", self.n))}
+        if self.hyper_d:
+            out["d"] = (d, ("gamma", self.a_d, self.b_d))
+        for j in range(self.J):
+            l = np.array([float(np.asarray(s[self.lnames[j]]).reshape(-1)[0]) for s in states])
+            Y = np.array([self._y(s, j) for s in states])
+            z = np.sqrt(l)[:, None] * (Y - X @ self.As[j].T)
+            nm = self.lnames[j]
+            out[nm] = (l, ("gamma", self.a_l[j], self.b_l[j]))
+            out[f"{nm}*|y-Ax|^2"] = (np.sum(z ** 2, axis=1), ("chi2", self.ms[j]))
+            out[f"sqrt({nm})(y-Ax)"] = (z.ravel(), ("norm",))
+            out[f"sqrt({nm})(y-Ax)[0]"] = (z[:, 0], ("norm",))
+        return out
+
+    @property
+    def pairs(self):
+        p = [("sqrt(d)(x-x0)[0]", f"sqrt({nm})(y-Ax)[0]") for nm in self.lnames]
+        p += [(nm, f"{nm}*|y-Ax|^2") for nm in self.lnames]
+        p += [("d*|x-x0|^2", f"{nm}*|y-Ax|^2") for nm in self.lnames]
+        if self.J > 1:
+            p += [("l1", "l2"), ("l1*|y-Ax|^2", "l2*|y-Ax|^2"), ("sqrt(l1)(y-Ax)[0]", "sqrt(l2)(y-Ax)[0]")]
+        if self.hyper_d:
+            p += [("d", "d*|x-x0|^2")]
+        return p
+
+
 # ----------------------------------------------------------------------------- conditionals from logjoint only
 
 def gauss_conditional(model, cur, block):
@@ -342,7 +425,9 @@ def selftest():
                     [np.zeros(3), np.ones(1)], [1.0, 0.5, 0.3]),
               Chain(["a", "b", "c"], [2, 3, 1], [1.0, -1.0], [rs.standard_normal((3, 2)), rs.standard_normal((1, 2))],
                     [np.zeros(3), np.ones(1)], [1.0, 0.5, 0.3], parents=[None, 0, 0]),
-              Scalar3(1.0, 1.0, 1.0, 100.0)]
+              Scalar3(1.0, 1.0, 1.0, 100.0),
+              Multi(n, [A, rs.standard_normal((m, n))], np.zeros(n), [3.0, 4.0], [1.0, 2.0], True),
+              Multi(n, [A, rs.standard_normal((2, n))], rs.standard_normal(n), [3.0, 4.0], [1.0, 2.0], False, d_fixed=0.7)]
     for M in models:
         states = [M.draw(rs) for _ in range(3000)]
         st = law_statistics(M.pivots(states), M.pairs)
@@ -352,6 +437,15 @@ def selftest():
         # corrupt: replace the first block by an independent redraw (breaks the dependence)
         other = [M.draw(rs) for _ in range(3000)]
         k0 = M.names[0] if M.family != "scalar3" else "s"
+        if M.family == "multi":
+            # textbook conditional of x given two different data sets
+            v0 = states[0]
+            dd = v0["d"][0] if M.hyper_d else M.d_fixed
+            Pref = dd * np.eye(M.n) + sum(v0[l][0] * Aj.T @ Aj for l, Aj in zip(M.lnames, M.As))
+            mref = np.linalg.solve(Pref, dd * M.x0 + sum(v0[l][0] * Aj.T @ v0[y] for l, Aj, y in zip(M.lnames, M.As, M.data_names)))
+            mean, P, defect = gauss_conditional(M, v0, "x")
+            if not (np.allclose(P, Pref, rtol=1e-7, atol=1e-8) and np.allclose(mean, mref, rtol=1e-7, atol=1e-8)):
+                bad.append("gauss_conditional(multi)")
         mixed = [dict(s, **{k0: o[k0]}) for s, o in zip(states, other)]
         st = law_statistics(M.pivots(mixed), M.pairs)
         if min(p for _, p, _ in st) > 1e-7:
